@@ -18,6 +18,8 @@ import fnmatch
 import hashlib
 import json
 import multiprocessing
+import shutil
+import tempfile
 import os
 import sys
 import time
@@ -51,8 +53,9 @@ class Result:
 
 class Phase:
     def __init__(self, name, check, *, gen=None, strategy=None, examples=0,
-                 shards=None, exhaustive=False, note=''):
+                 shards=None, exhaustive=False, note='', native=False):
         self.name = name
+        self.native = native          # the check runs compiled code that can kill the process: cases are journalled
         self.check = check
         self.gen = gen                # () -> iterator of cases        (exhaustive / enumerated)
         self.strategy = strategy      # () -> hypothesis strategy      (random)
@@ -101,7 +104,18 @@ def _bucket_crash(e):
     return None
 
 
+_JOURNAL_DIR = None      # set in worker processes of phases that run native code
+
+
+def _journal(phase, case):
+    """Write the case about to run next to this worker's pid: if compiled code kills the process the parent finds it."""
+    if _JOURNAL_DIR is not None and getattr(phase, 'native', False):
+        with open(os.path.join(_JOURNAL_DIR, f'{os.getpid()}.json'), 'w') as fh:
+            json.dump({'phase': phase.name, 'case': case}, fh, default=repr)
+
+
 def run_check(phase, case):
+    _journal(phase, case)
     try:
         res = phase.check(case)
     except HarnessError:
@@ -212,8 +226,10 @@ class _ViolationFound(Exception):
 
 
 def _worker(args):
-    (prop_name, tier, seed, phase_index, shard, nshards, suppress, deadline, round_no) = args
+    (prop_name, tier, seed, phase_index, shard, nshards, suppress, deadline, round_no) = args[:9]
     import importlib
+    global _JOURNAL_DIR
+    _JOURNAL_DIR = args[9] if len(args) > 9 else None
 
     mod = importlib.import_module(f'fsicverif.props.{prop_name}')
     phase = mod.phases(tier)[phase_index]
@@ -315,6 +331,44 @@ def _run_random(mod, phase, tier, seed, shard, nshards, suppress, deadline, stat
 # -- main entry ---------------------------------------------------------------
 
 
+GRACE_S = float(os.environ.get('VERIF_GRACE_S', '300'))
+
+
+def _collect(pool, tasks, deadline, journal, phases, total):
+    """Yield the workers' results as they arrive; notice a worker that died (compiled code under test can take the whole
+    process down - multiprocessing would wait for ever) and a run that is stuck far beyond its budget."""
+    pending = {i: pool.apply_async(_worker, (t,)) for i, t in enumerate(tasks)}
+    started = {p.pid for p in pool._pool}
+    while pending:
+        for i in [i for i, r in pending.items() if r.ready()]:
+            yield pending.pop(i).get()
+        if not pending:
+            break
+        now_pids = {p.pid for p in pool._pool if p.exitcode is None}
+        died = started - now_pids
+        if died:
+            # which cases were they running?
+            culprits = []
+            for pid in died:
+                try:
+                    with open(os.path.join(journal, f'{pid}.json')) as fh:
+                        culprits.append(json.load(fh))
+                except (OSError, ValueError):
+                    pass
+            pool.terminate()
+            if not culprits:
+                raise HarnessError(f'worker process(es) {sorted(died)} died without a journalled case')
+            by_name = {p.name: p for p in phases}
+            for c in culprits:
+                total.add_violation(by_name[c['phase']], f'crash/worker-died/{c["phase"]}', c['case'],
+                                    'the process running this case was killed (crash in compiled code)')
+            return
+        if time.time() > deadline + GRACE_S:
+            pool.terminate()
+            raise HarnessError(f'{len(pending)} shard(s) still running {GRACE_S:.0f} s after the budget ended: inconclusive')
+        time.sleep(0.05)
+
+
 def run_property(mod, tier, seed, *, budget_s=None, verbose=True):
     """Run all phases of a property. Returns (exit_code, evidence_dict)."""
     from . import findings as findings_mod
@@ -385,10 +439,13 @@ def run_property(mod, tier, seed, *, budget_s=None, verbose=True):
         if not tasks:
             break
         found_new = False
+        journal = tempfile.mkdtemp(prefix='fsicverif-journal-')
+        tasks = [t + (journal,) for t in tasks]
         with ctx.Pool(min(NPROC, len(tasks))) as pool:
-            for d in pool.imap_unordered(_worker, tasks):
+            for d in _collect(pool, tasks, deadline, journal, phases, total):
                 if 'harness_error' in d:
                     pool.terminate()
+                    shutil.rmtree(journal, ignore_errors=True)
                     raise HarnessError(d['harness_error'])
                 before = set(total.violations)
                 if round_no > 0:
@@ -404,6 +461,7 @@ def run_property(mod, tier, seed, *, budget_s=None, verbose=True):
                     found_new = True
             pool.close()
             pool.join()          # let the workers exit normally (needed for line-coverage measurement of the workers)
+        shutil.rmtree(journal, ignore_errors=True)
         seen_keys = list(total.violations)
         if not found_new or time.time() > deadline:
             break
@@ -486,5 +544,18 @@ def replay_file(mod, tier, path):
         phase = {p.name: p for p in mod.phases(other)}.get(r['phase'])
     if phase is None:
         raise HarnessError(f'unknown phase {r["phase"]} in {path}')
+    if str(r.get('key', '')).startswith('crash/worker-died'):
+        # the case killed its process: run it in a child
+        ctx = multiprocessing.get_context('fork')
+        child = ctx.Process(target=run_check, args=(phase, r['case']))
+        child.start()
+        child.join(600)
+        res = Result()
+        if child.exitcode is None:
+            child.terminate()
+            raise HarnessError('replay still running after 600 s')
+        if child.exitcode != 0:
+            res.fail(r['key'], f'the process running this case died again (exit code {child.exitcode})')
+        return res
     res = run_check(phase, r['case'])
     return res
